@@ -54,3 +54,22 @@ Theorem C07_keeps_invariant : forall debug hd s0 prog result, Forall op_ok prog 
   Inv (fst (serve debug hd s0 prog result)).
 Proof. exact serve_inv. Qed.
 Print Assumptions C07_keeps_invariant.
+
+(* ---- tie to the source by proof: the body of Echo.DefaultHTTPErrorHandler, translated statement by statement from echo.go
+   on every run (Gen/Src_errorhandler.v, language Base/GoLite.v), run on the cells that describe ANY error value e (the answers
+   of its two type assertions, code / message / internal of the HTTP errors involved, the kind of each message), makes no
+   call at all on a committed response and otherwise exactly ONE: NoContent(code) for HEAD, JSON(code, message) else, with
+   (code, message) = [effective e] of the model - the error's own, that of the HTTP error it directly carries, or 500 with
+   the status text - and the message shown as [body_of] says: {"message": m} (+ "error" only in debug mode) for a string,
+   {"message": m.Error()} for an error, the value itself otherwise.  [mid] names message values that are passed on. *)
+From Coq Require Import String ZArith.
+From Echo Require Import Base.GoLite Gen.Src_errorhandler Http.ErrorHandlerSrc.
+
+Theorem C07_source_error_handler : forall (mid : msg -> Z) committed debug is_head e,
+  let '(st', _) := GoLite.run esym src_default_error_handler_results src_default_error_handler (start mid committed debug is_head e) in
+  let calls := filter (fun ev => negb (String.eqb (fst ev) "err.(*HTTPError)") && negb (String.eqb (fst ev) "he.Internal.(*HTTPError)")) (events st') in
+  if committed then calls = []
+  else let '(code, m) := effective e in
+       calls = [if is_head then ("c.NoContent"%string, [code]) else ("c.JSON"%string, [code; shown mid debug m])].
+Proof. exact src_default_error_handler_spec. Qed.
+Print Assumptions C07_source_error_handler.
